@@ -48,6 +48,7 @@ structure SInv (p : Prog) (rk : String → Nat) (R : Nat) (st : St) (bag : Bag) 
   bg : ∀ n, bag'.lookup n = bag.lookup n ∨ (bag.lookup n = none ∧ rk n < R)
   pc : ∀ n, st'.pcache.lookup n = st.pcache.lookup n ∨ st.pcache.lookup n = none
   lg : ∃ suf, st'.evalLog = st.evalLog ++ suf ∧ ∀ e ∈ suf, LogOK p st bag e
+  nx : st.next ≤ st'.next
 
 theorem effScope_congr (p : Prog) (st st' : St) (h : st'.ovServices = st.ovServices) (n : String) :
     effScope p st' n = effScope p st n := by
@@ -55,11 +56,11 @@ theorem effScope_congr (p : Prog) (st st' : St) (h : st'.ovServices = st.ovServi
   rw [h]
 
 theorem SInv.refl (p : Prog) (rk : String → Nat) (R : Nat) (st : St) (bag : Bag) : SInv p rk R st bag st bag :=
-  ⟨rfl, rfl, rfl, fun _ => Or.inl rfl, fun _ => Or.inl rfl, fun _ => Or.inl rfl, [], by simp, by simp⟩
+  ⟨rfl, rfl, rfl, fun _ => Or.inl rfl, fun _ => Or.inl rfl, fun _ => Or.inl rfl, ⟨[], by simp, by simp⟩, Nat.le_refl _⟩
 
 theorem SInv.mono {p : Prog} {rk : String → Nat} {R R' : Nat} {a : St} {ba : Bag} {b : St} {bb : Bag}
     (h : SInv p rk R a ba b bb) (hR : R ≤ R') : SInv p rk R' a ba b bb := by
-  refine ⟨h.ovP, h.ovS, h.ctx, fun n => ?_, fun n => ?_, h.pc, h.lg⟩
+  refine ⟨h.ovP, h.ovS, h.ctx, fun n => ?_, fun n => ?_, h.pc, h.lg, h.nx⟩
   · rcases h.sh n with x | ⟨x, y⟩
     · exact Or.inl x
     · exact Or.inr ⟨x, by omega⟩
@@ -72,7 +73,7 @@ theorem SInv.trans {p : Prog} {rk : String → Nat} {R : Nat} {a : St} {ba : Bag
   obtain ⟨suf1, l1, m1⟩ := h1.lg
   obtain ⟨suf2, l2, m2⟩ := h2.lg
   refine ⟨h2.ovP.trans h1.ovP, h2.ovS.trans h1.ovS, h2.ctx.trans h1.ctx, fun n => ?_, fun n => ?_, fun n => ?_,
-    suf1 ++ suf2, by rw [l2, l1, List.append_assoc], ?_⟩
+    ⟨suf1 ++ suf2, by rw [l2, l1, List.append_assoc], ?_⟩, Nat.le_trans h1.nx h2.nx⟩
   · rcases h2.sh n with hb | ⟨hb, hlt⟩
     · rcases h1.sh n with ha | ⟨ha, hlt'⟩
       · exact Or.inl (hb.trans ha)
@@ -119,22 +120,22 @@ theorem SInv.trans {p : Prog} {rk : String → Nat} {R : Nat} {a : St} {ba : Bag
 /-- a parameter evaluation is a service-level step too -/
 theorem SInv.ofPInv {p : Prog} {rk rkP : String → Nat} {R RP : Nat} {st st' : St} (bag : Bag)
     (h : PInv rkP RP st st') : SInv p rk R st bag st' bag := by
-  obtain ⟨h1, h2, h3, h4, _, _, h7, suf, h8, h9⟩ := h
-  refine ⟨h1, h2, h4, fun n => Or.inl (by rw [h3]), fun _ => Or.inl rfl, fun n => ?_, suf, h8, fun e he => Or.inl (h9 e he)⟩
+  obtain ⟨h1, h2, h3, h4, _, h6, h7, suf, h8, h9⟩ := h
+  refine ⟨h1, h2, h4, fun n => Or.inl (by rw [h3]), fun _ => Or.inl rfl, fun n => ?_, ⟨suf, h8, fun e he => Or.inl (h9 e he)⟩, by rw [h6]; exact Nat.le_refl _⟩
   rcases h7 n with x | ⟨x, _⟩
   · exact Or.inl x
   · exact Or.inr x
 
 /-- changes of the object heap only -/
-theorem SInv.heapOnly (p : Prog) (rk : String → Nat) (R : Nat) (st : St) (bag : Bag) (h : List (Nat × Obj)) (k : Nat) :
-    SInv p rk R st bag { st with heap := h, next := k } bag :=
-  ⟨rfl, rfl, rfl, fun _ => Or.inl rfl, fun _ => Or.inl rfl, fun _ => Or.inl rfl, [], by simp, by simp⟩
+theorem SInv.heapOnly (p : Prog) (rk : String → Nat) (R : Nat) (st : St) (bag : Bag) (h : List (Nat × Obj)) (k : Nat)
+    (hk : st.next ≤ k) : SInv p rk R st bag { st with heap := h, next := k } bag :=
+  ⟨rfl, rfl, rfl, fun _ => Or.inl rfl, fun _ => Or.inl rfl, fun _ => Or.inl rfl, ⟨[], by simp, by simp⟩, hk⟩
 
 theorem sinv_alloc (p : Prog) (rk : String → Nat) (R : Nat) (st : St) (bag : Bag) (o : Obj) :
-    SInv p rk R st bag (alloc st o).1 bag := SInv.heapOnly p rk R st bag _ _
+    SInv p rk R st bag (alloc st o).1 bag := SInv.heapOnly p rk R st bag _ _ (Nat.le_succ _)
 
 theorem sinv_updObj (p : Prog) (rk : String → Nat) (R : Nat) (st : St) (bag : Bag) (n : Nat) (f : Obj → Obj) :
-    SInv p rk R st bag (updObj st n f) bag := SInv.heapOnly p rk R st bag _ _
+    SInv p rk R st bag (updObj st n f) bag := SInv.heapOnly p rk R st bag _ _ (Nat.le_refl _)
 
 theorem foldl_inv {α β : Type} (I : β → Prop) (l : List α) (step : β → α → β) (b : β) (hb : I b)
     (hstep : ∀ acc, ∀ a ∈ l, I acc → I (step acc a)) : I (l.foldl step b) := by
@@ -280,19 +281,19 @@ theorem finishGet_inv (id : String) (obj : RV) (st : St) (bag : Bag)
   unfold finishGet
   cases hsc : effScope p st id with
   | shared =>
-    refine ⟨rfl, rfl, rfl, fun n => ?_, fun _ => Or.inl rfl, fun _ => Or.inl rfl, ["ctor:" ++ id], rfl, by simpa using hlog⟩
+    refine ⟨rfl, rfl, rfl, fun n => ?_, fun _ => Or.inl rfl, fun _ => Or.inl rfl, ⟨["ctor:" ++ id], rfl, by simpa using hlog⟩, Nat.le_refl _⟩
     by_cases hn : n = id
     · subst hn; exact Or.inr ⟨hs hsc, by omega⟩
     · exact Or.inl (lookup_cons_ne id n obj _ hn)
   | contextual =>
-    refine ⟨rfl, rfl, rfl, fun _ => Or.inl rfl, fun n => ?_, fun _ => Or.inl rfl, ["ctor:" ++ id], rfl, by simpa using hlog⟩
+    refine ⟨rfl, rfl, rfl, fun _ => Or.inl rfl, fun n => ?_, fun _ => Or.inl rfl, ⟨["ctor:" ++ id], rfl, by simpa using hlog⟩, Nat.le_refl _⟩
     by_cases hn : n = id
     · subst hn; exact Or.inr ⟨hc hsc, by omega⟩
     · exact Or.inl (lookup_cons_ne id n obj _ hn)
   | default =>
-    exact ⟨rfl, rfl, rfl, fun _ => Or.inl rfl, fun _ => Or.inl rfl, fun _ => Or.inl rfl, ["ctor:" ++ id], rfl, by simpa using hlog⟩
+    exact ⟨rfl, rfl, rfl, fun _ => Or.inl rfl, fun _ => Or.inl rfl, fun _ => Or.inl rfl, ⟨["ctor:" ++ id], rfl, by simpa using hlog⟩, Nat.le_refl _⟩
   | nonShared =>
-    exact ⟨rfl, rfl, rfl, fun _ => Or.inl rfl, fun _ => Or.inl rfl, fun _ => Or.inl rfl, ["ctor:" ++ id], rfl, by simpa using hlog⟩
+    exact ⟨rfl, rfl, rfl, fun _ => Or.inl rfl, fun _ => Or.inl rfl, fun _ => Or.inl rfl, ⟨["ctor:" ++ id], rfl, by simpa using hlog⟩, Nat.le_refl _⟩
 
 theorem getBody_inv (ra : RA) (ras : RAS) (s : Output.Service) (id : String) (st : St) (bag : Bag)
     (hargs : ∀ s' b, SInv p rk (rk id) s' b (ras s' b s.args).1 (ras s' b s.args).2.1)
